@@ -228,12 +228,14 @@ def fk_oracle(sch, facts):
 
 # ------------------------------------------------------------------ the run
 def run_family(c, profile, n_quick, n_thorough, compare, oracle, what, trusted_extra=(), command=None, subcmd="store",
-               tmpdir=None, extra_args=()):
+               tmpdir=None, extra_args=(), compare_case=None):
     subcmd = command or subcmd
     """compare(impl_tx, model_tx) -> None | description of the property-relevant difference
        oracle(sch, case_txs, impl_obs, model_obs) -> list of (key, description, tx index)  : direct violations
        subcmd / tmpdir / extra_args (added for C04): harness sub-command that runs the histories (default the in-process
-       "store"; "store-iso" = child-process isolation), directory of the bolt files, further harness arguments"""
+       "store"; "store-iso" = child-process isolation), directory of the bolt files, further harness arguments
+       compare_case (added for C07): compare_case(sch, case_txs) -> f(impl_tx, model_tx, k), used instead of compare when the
+       projection depends on the tokens of transaction k"""
     pid = c.pid
     c.cov["trusted_base"] = [
         "Coq 8.16.1 kernel (coqc; coqchk in the thorough tier); vm_compute in Examples only; no axioms",
@@ -291,8 +293,9 @@ def run_family(c, profile, n_quick, n_thorough, compare, oracle, what, trusted_e
             reported = True
         if reported:
             continue
+        cmpk = compare_case(sch, txs) if compare_case else None
         for k, (a, b) in enumerate(zip(io, mo)):
-            d = compare(a, b)
+            d = cmpk(a, b, k) if cmpk else compare(a, b)
             if d:
                 disagreements.append((case, i, m, k, d, idx))
                 break
